@@ -139,14 +139,14 @@ stopped by its depth budget.  It never reports a subtype failure, a malformed va
 theorem decoding_a_subtype_value_never_fails (env : Env) (hg : GoodEnv env) (m n : Nat) (w e : Ty) (v : Val) (cf sf : Nat)
     (bs r : Bytes) (s : St) (hgw : goodTy env w = true) (hge : goodTy env e = true)
     (hc : canon env cf v w = true) (hs : serVal sf v = .ok bs) (hin : s.input = bs ++ r)
-    (hu : Unmetered s) (hw : OKW env w) (he : OKE env e) (hsm : Small s) (hsub : Sub.Sub env w e)
+    (hu : Unmetered s) (hw : OKW env w) (he : OKE env e) (hsub : Sub.Sub env w e)
     (hn : coerce env false env n w e v ≠ .err .limit) :
     deAny env .idl m w e s = .err .limit ∨
       ∃ v', coerce env false env n w e v = .ok v' ∧ deAny env .idl m w e s = .ok v' { s with input := r } := by
   have hsnd := coerce_sound env hg false n w e v cf hgw hge hc hsub
   cases hco : coerce env false env n w e v with
   | ok v' =>
-    rcases typed_read env m n w e v cf sf bs r s hc hs hin hu hw he hsm with h | h | h
+    rcases typed_read env m n w e v cf sf bs r s hc hs hin hu hw he trivial with h | h | h
     · rw [hco] at h; simp at h
     · exact Or.inl h
     · rw [hco] at h
